@@ -1,11 +1,19 @@
-(* C20 -- style tool: every style score lies in [0,1] and nothing divides by zero (arithmetic layer of style.py,
-   modelled over exact rationals in model/Style.v).  SInv = the tool's own is_valid conditions plus the facts the
-   game analysis establishes (distance histograms sum to the capture / non-capture counts, threats <= moves, the
-   early-pawn-push potential bound of DESIGN A9, at least one game).  PARTIAL: that analyse_game establishes SInv for
-   every set of games is measured on generated games (the premises are evaluated exactly on the real tool's
-   statistics), not proved; float rounding is not modelled. *)
+(* C20 -- style tool: the statistics stay consistent and every style score lies in [0,1]; nothing divides by zero.
+   Two layers, both modelled from tools/style/style.py:
+   * arithmetic (model/Style.v, exact rationals): under SInv = the tool's own is_valid conditions plus the facts the game
+     analysis establishes (distance histograms sum to the capture / non-capture counts, threats <= moves, the early-pawn-push
+     potential bound, at least one game) every feature is defined and in [0,1], hence the three scores (StyleFacts.v);
+   * games (model/StyleGame.v): analyse_game / Stats.add_capture / add_noncapture / add_pawn_push / finish_game over the model
+     of the engine's own position code in place of python-chess.  For EVERY non-empty list of games, each any sequence of
+     generated (= legal by C01) moves from the standard starting position, any result headers, either side:
+     is_valid holds and SInv holds (StyleGames.v: counting StyleCount.v, pawn potential StylePotential.v over the pawn
+     facts StylePawns.v, low ranks StyleValid.v), so the scores are numbers in [0,1].  No length bound is needed in the
+     model; the tool's game_length array has 1024 entries (the property's bound), which the model's sparse list does not have.
+   Not modelled: float rounding (the tool computes in floats, the model in Q; compared to 1e-9 on every generated game set),
+   the PGN reader, python-chess (replaced by tools/chess_stub in the correspondence run). *)
 From Coq Require Import ZArith QArith List Bool.
-From Rawr Require Import Style StyleFacts.
+From Rawr Require Import Position MoveGen GenLegal Style StyleGame StyleFacts StyleInv StyleGames.
+Import ListNotations.
 Local Open Scope Q_scope.
 
 Theorem C20_aggression_in_unit : forall s, SInv s -> 0 <= total_pawn_pushes s ->
@@ -18,6 +26,29 @@ Proof. exact positional_in_unit. Qed.
 Theorem C20_pawn_pusher_in_unit : forall s, 0 < num_games s -> exists q, pawn_pusher_score s = Score q /\ 0 <= q /\ q <= 1.
 Proof. exact pawn_pusher_in_unit. Qed.
 
+Theorem C20_games_give_consistent_statistics_and_scores_in_unit : forall side games, games <> [] -> Forall played games ->
+  let s := analyse_games side games in
+  is_valid s = true
+  /\ (exists q, aggression_score s = Score q /\ 0 <= q /\ q <= 1)
+  /\ (exists q, positional_score s = Score q /\ 0 <= q /\ q <= 1)
+  /\ (exists q, pawn_pusher_score s = Score q /\ 0 <= q /\ q <= 1).
+Proof. exact style_scores_of_games. Qed.
+(* the assertion of the main loop (is_valid after every analysed game): every prefix of a list of played games is one *)
+Theorem C20_valid_after_every_game : forall side games, Forall played games -> is_valid (analyse_games side games) = true.
+Proof. exact analyse_games_valid. Qed.
+Theorem C20_games_establish_the_invariant : forall side games, games <> [] -> Forall played games -> SInv (analyse_games side games).
+Proof. exact analyse_games_SInv. Qed.
+Theorem C20_no_games_no_scores : forall side, let s := analyse_games side [] in
+  aggression_score s = NoGames /\ positional_score s = NoGames /\ pawn_pusher_score s = NoGames.
+Proof. exact no_games_no_scores. Qed.
+(* non-vacuity: 1.e4 d5 2.exd5 (1-0) and a game without moves (1/2-1/2) are played games *)
+Example C20_played_somewhere :
+  Forall played [(WhiteWins, [mkMv 12 28 NOPIECE; mkMv 11 27 NOPIECE; mkMv 28 35 NOPIECE]%N); (DrawnGame, [])].
+Proof. exact two_games_played. Qed.
 Print Assumptions C20_aggression_in_unit.
 Print Assumptions C20_positional_in_unit.
 Print Assumptions C20_pawn_pusher_in_unit.
+Print Assumptions C20_games_give_consistent_statistics_and_scores_in_unit.
+Print Assumptions C20_valid_after_every_game.
+Print Assumptions C20_games_establish_the_invariant.
+Print Assumptions C20_no_games_no_scores.
